@@ -62,7 +62,21 @@ func c13Text(r *fw.Rand) string {
 }
 
 // variables every template case starts with: containers that are reachable under several names
-const c13Prelude = "sa = [1, 2]; sd = {'k': 1}; sb = sa; sn = [sa, 0]; sm = {'in': sd}; se = []"
+const c13Prelude = "sa = [1, 2]; sd = {'k': 1}; sb = sa; sn = [sa, 0]; sm = {'in': sd}; se = []; mq = [0]; md = {'k': 0}; func pf(n) { if n { n = n + 1 } }; func pw(n) { while n < 3 { n = n + 1 } }"
+
+// model of the two containers that holes modify (mq, md.k): holes are generated in evaluation
+// order, so the model at generation time is the state the hole sees at run time. A hole that
+// shows a container contributes its string form at that moment, whatever later holes do to it.
+var c13MQ = []int{0}
+var c13MD = 0
+
+func c13MQRepr() string {
+	parts := make([]string, len(c13MQ))
+	for i, v := range c13MQ {
+		parts[i] = fmt.Sprint(v)
+	}
+	return "[" + strings.Join(parts, ", ") + "]"
+}
 
 // c13TrailingRawOK: the text being encoded is followed by the closing delimiter (not by a hole).
 var c13TrailingRawOK = true
@@ -131,7 +145,29 @@ type c13Hole struct {
 }
 
 func c13HoleGen(r *fw.Rand, depth int) c13Hole {
-	switch k := r.Intn(25); {
+	switch k := r.Intn(29); {
+	case k == 24:
+		return fw.PickT(r, []c13Hole{{"mq", c13MQRepr(), ""}, {"[mq, 1]", "[" + c13MQRepr() + ", 1]", ""}, {"md", fmt.Sprintf("{'k': %d}", c13MD), ""}, {"mq[0]", fmt.Sprint(c13MQ[0]), ""}, {"[md]", fmt.Sprintf("[{'k': %d}]", c13MD), ""}})
+	case k == 25:
+		v := r.Intn(50)
+		c13MQ = append(c13MQ, v)
+		return c13Hole{fmt.Sprintf("mq.push(%d); 'p'", v), "p", ""}
+	case k == 26:
+		v := r.Intn(50)
+		c13MQ[0] = v
+		return c13Hole{fmt.Sprintf("mq[0] = %d", v), fmt.Sprint(v), ""}
+	case k == 27:
+		v := r.Intn(50)
+		c13MD = v
+		return c13Hole{fmt.Sprintf("md.k = %d; md.k", v), fmt.Sprint(v), ""}
+	case k == 28:
+		if r.Bool() {
+			// functions defined or called inside a hole return what they return anywhere else: a body
+			// that ends in a block gives null, not the empty text a block contributes to a template
+			return fw.PickT(r, []c13Hole{{"func hf(n) { if n { n = n + 1 } }; hf(1)", "null", ""}, {"func hg(n) { while n < 3 { n = n + 1 } }; hg(0)", "null", ""}, {"pf(1)", "null", ""}, {"pw(0)", "null", ""},
+				{"func hv(n) { if n { n = n + 1 }; n }; hv(1)", "2", ""}, {"[pf(1), pw(5)]", "[null, null]", ""}, {"pf(0) ?? 'dflt'", "dflt", ""}})
+		}
+		return fw.PickT(r, []c13Hole{{"mq", c13MQRepr(), ""}, {"md", fmt.Sprintf("{'k': %d}", c13MD), ""}})
 	case k == 19:
 		return c13Hole{"sa", "[1, 2]", ""}
 	case k == 20:
@@ -297,6 +333,7 @@ func c13Case(w *fw.W, idx int, r *fw.Rand) {
 			w.Sample(map[string]any{"class": "literal", "delimiter": string(q), "text": text, "source": src})
 		}
 	case 5, 6, 7, 8: // templates
+		c13MQ, c13MD = []int{0}, 0
 		t := c13Template(r, r.Intn(3), 6)
 		sv := c13Text(r)
 		t.want = strings.ReplaceAll(t.want, "\x00SV", sv)
@@ -409,7 +446,7 @@ func init() {
 		Floors: func(tier string) map[string]int64 {
 			return map[string]int64{"literals": 40000, "templates": 30000, "template_holes": 50000, "nesting_accepted": 3000, "nesting_rejected": 500}
 		},
-		Rule:        "50% literal round trips: random text (0–30 atoms from an alphabet of quotes, backslash, braces, %, CR/LF/TAB/FF, NUL, multi-byte, combining, astral, ZWJ, escape look-alikes) written in each of the 4 delimiters with the documented escapes (each escapable character randomly escaped or raw where raw is legal; unknown escapes keep the backslash), bare / assigned / inside an array: must evaluate byte-exactly to the text. 40% templates with ≤6 holes of both kinds ({…}, {% … %}) holding expressions, assignments, if/while blocks, nested templates (depth ≤2), bare / between array sentinels / between concatenated sentinels: result = concatenation of segments and hole string forms, hole assignments visible afterwards. 10% nesting ladders depth 1..24: accepted depths must give the exact text, deeper ones an error (never a panic). distinct = hash(source)",
+		Rule:        "50% literal round trips: random text (0–30 atoms from an alphabet of quotes, backslash, braces, %, CR/LF/TAB/FF, NUL, multi-byte, combining, astral, ZWJ, escape look-alikes) written in each of the 4 delimiters with the documented escapes (each escapable character randomly escaped or raw where raw is legal; unknown escapes keep the backslash), bare / assigned / inside an array: must evaluate byte-exactly to the text. 40% templates with ≤6 holes of both kinds ({…}, {% … %}) holding expressions, assignments, if/while blocks, nested templates (depth ≤2), bare / between array sentinels / between concatenated sentinels: result = concatenation of segments and hole string forms, hole assignments visible afterwards. 10% nesting ladders depth 1..24: accepted depths must give the exact text, deeper ones an error (never a panic). distinct = hash(source) Holes also modify and show two model-tracked containers (mq, md): a hole contributes the string form of its value at the moment it is evaluated, whatever later holes do; holes define/call functions whose body ends in a block (null).",
 		Assumptions: []string{"there is no escape for a template's own delimiter, so texts containing ` (resp. 0x1E) are written with the other delimiters"},
 	})
 }
